@@ -39,7 +39,15 @@ func c07MemScenario(c *choice.Ctx, rep *report.R, variant int) {
 	store := func(k string, serial int, nx bool) {
 		v := c07Val(k, serial)
 		stored[k] = append(stored[k], string(v))
-		mc.Store([]byte(k), now, exp, v, nx)
+		// the key and value buffers are the caller's: they go back to its pool and are overwritten as soon as Store returned
+		kb, vb := []byte(k), append([]byte(nil), v...)
+		mc.Store(kb, now, exp, vb, nx)
+		for i := range kb {
+			kb[i] = env.Poison
+		}
+		for i := range vb {
+			vb[i] = env.Poison
+		}
 	}
 	// initial content (set up outside the scheduled run)
 	store("k1", 1, false)
@@ -157,6 +165,11 @@ func c07MemScenario(c *choice.Ctx, rep *report.R, variant int) {
 	}
 	for _, v := range own.Audit() {
 		bad("ownership", v, s)
+	}
+	for _, k := range votter.Keys(mc.backend) {
+		if strings.IndexByte(k, env.Poison) >= 0 {
+			bad("ownership:key-aliases-callers-buffer", fmt.Sprintf("the cache holds the key %q: it kept the caller's key buffer instead of a copy, and the caller has reused that buffer since", k), s)
+		}
 	}
 	rep.Eval(fmt.Sprintf("%d|%s|%v", variant, strings.Join(s.Trace, " "), results))
 	rep.State(fmt.Sprintf("%d|%v", variant, results))
